@@ -27,6 +27,9 @@ pub struct Stats {
     pub ok: u64,
     pub err: u64,
     pub by_kind: BTreeMap<String, u64>,
+    /// profile `synth` only: distribution of the synthesised states (`state:*`), outcomes of the
+    /// follow-up operations (`follow:KIND:ok|err`) and notable events (`event:*`)
+    pub synth: BTreeMap<String, u64>,
 }
 
 /// kind of an operation = its first token(s): `bond b`, `cw bsei send`, `hub withdraw`, `advance`
@@ -63,8 +66,22 @@ impl Stats {
             }
             s.push_str(&format!("\"{}\":{}", k, v));
         }
-        s.push_str("}}");
+        s.push('}');
+        if !self.synth.is_empty() {
+            s.push_str(",\"synth\":{");
+            for (i, (k, v)) in self.synth.iter().enumerate() {
+                if i > 0 {
+                    s.push(',');
+                }
+                s.push_str(&format!("\"{}\":{}", k, v));
+            }
+            s.push('}');
+        }
+        s.push('}');
         s
+    }
+    pub fn count(&mut self, key: &str) {
+        *self.synth.entry(key.to_string()).or_insert(0) += 1;
     }
 }
 
@@ -367,8 +384,9 @@ const ALL_FAMS: [Fam; 24] = [
     Claim, Gift, Price, Modes, Registry, Params, Pause, Owner, Cfg, Direct, Legacy, Inst,
 ];
 
-pub const PROFILES: [&str; 9] =
-    ["general", "pricing", "unbond", "rewards", "registry", "token", "config", "pause", "exit"];
+pub const PROFILES: [&str; 10] = [
+    "general", "pricing", "unbond", "rewards", "registry", "token", "config", "pause", "exit", "synth",
+];
 
 const GENERAL: [(Fam, u32); 20] = [
     (Bond, 14),
@@ -490,6 +508,25 @@ fn weights(profile: &str) -> Vec<(Fam, u32)> {
             // the unlisted families of `general` (weight 1 there)
             v.push((Modes, 7));
             return v;
+        }
+        "synth" => {
+            // follow-up operations of the synthesised-state stream: user-facing operations only
+            return vec![
+                (Withdraw, 18),
+                (Advance, 14),
+                (Unbond, 17),
+                (Convert, 10),
+                (Bond, 10),
+                (Slash, 7),
+                (Update, 7),
+                (Accrue, 4),
+                (SlashChk, 5),
+                (Transfer, 4),
+                (From, 1),
+                (Claim, 3),
+                (Gift, 2),
+                (Registry, 2),
+            ];
         }
         "exit" => vec![
             (Modes, 14),
@@ -1974,6 +2011,825 @@ impl<'a, A: Write, B: Write> Gen<'a, A, B> {
     }
 }
 
+// ---------------------------------------------------------------------------------------------
+// Profile `synth`: histories that start from a SYNTHESISED deep state (DESIGN.md section 11.6)
+// ---------------------------------------------------------------------------------------------
+
+fn mul_ratio(a: u128, num: u128, den: u128) -> u128 {
+    Uint128::new(a).multiply_ratio(num, den).u128()
+}
+/// floor(amount * rate / 1e18) -- `Uint128 * Decimal`
+fn mul_rate(amount: u128, rate: u128) -> u128 {
+    mul_ratio(amount, rate, E18)
+}
+/// `State::update_*_exchange_rate`: 1 if either is 0, else floor(bonded * 1e18 / claims)
+fn rate_of(bonded: u128, claims: u128) -> u128 {
+    if bonded == 0 || claims == 0 {
+        E18
+    } else {
+        mul_ratio(bonded, E18, claims)
+    }
+}
+fn decade(x: u128) -> String {
+    if x == 0 {
+        return s("0");
+    }
+    format!("1e{:02}", x.to_string().len() - 1)
+}
+
+/// What the synthesiser decided (for the statistics)
+#[derive(Default)]
+struct SynthInfo {
+    magnitude: u128,
+    batches: u64,
+    released: u64,
+    matured: u64,
+    immature: u64,
+}
+
+impl<'a, A: Write, B: Write> Gen<'a, A, B> {
+    fn cnt(&mut self, key: &str) {
+        self.em.stats.count(key);
+    }
+
+    /// log-uniform in 1..=max with spikes at small values; 0 if max == 0
+    fn spiky(&mut self, max: u128) -> u128 {
+        if max == 0 {
+            return 0;
+        }
+        if self.r.pct(14) {
+            let v = self.r.pick(&[1u128, 1, 2, 3, 999, 1_000_000]);
+            if v <= max {
+                return v;
+            }
+        }
+        if self.r.pct(6) {
+            return max;
+        }
+        self.log_uniform(1, max)
+    }
+
+    /// random partition of `total` into `n` parts (zeros allowed), sum exactly `total`
+    fn split(&mut self, total: u128, n: usize) -> Vec<u128> {
+        if n == 0 {
+            return vec![];
+        }
+        if n == 1 {
+            return vec![total];
+        }
+        let mut parts = vec![0u128; n];
+        if self.r.pct(35) {
+            // dust parts next to one large part
+            let mut left = total;
+            for p in parts.iter_mut().take(n - 1) {
+                let x = self.r.pick(&[0u128, 1, 1, 2, 3, 999]).min(left);
+                *p = x;
+                left -= x;
+            }
+            parts[n - 1] = left;
+            // random position of the large part
+            let j = self.r.below(n as u64) as usize;
+            parts.swap(j, n - 1);
+            return parts;
+        }
+        let mut cuts: Vec<u128> = (0..n - 1).map(|_| self.uniform(0, total)).collect();
+        cuts.sort();
+        let mut prev = 0u128;
+        for (i, c) in cuts.iter().enumerate() {
+            parts[i] = c - prev;
+            prev = *c;
+        }
+        parts[n - 1] = total - prev;
+        parts
+    }
+
+    fn distinct_users(&mut self, pool: &[String], k: usize) -> Vec<String> {
+        let mut p: Vec<String> = pool.to_vec();
+        let mut out = vec![];
+        for _ in 0..k.min(pool.len()) {
+            let i = self.r.below(p.len() as u64) as usize;
+            out.push(p.remove(i));
+        }
+        out
+    }
+
+    /// `reset`, liquid funds, the standard fully wired instantiate prelude, then the synthesised
+    /// state written with `poke_*` operations.
+    fn synth_setup(&mut self) -> SynthInfo {
+        let ut: u64 = match self.r.below(100) {
+            0..=49 => 100,
+            50..=64 => 50,
+            65..=79 => 7,
+            _ => 1000,
+        };
+        self.ut = ut;
+        self.emit(Op::Reset { ut });
+        let now = self.w().now;
+
+        // ---- magnitude of this world -------------------------------------------------------
+        let m: u128 = if self.r.pct(8) {
+            self.r.pick(&[1u128, 2, 3, 999, 1_000_000])
+        } else {
+            self.log_uniform(1, E18)
+        };
+        self.cnt(&format!("state:magnitude:{}", decade(m)));
+
+        // ---- liquid funds ------------------------------------------------------------------
+        let n_users = self.r.range(1, 8) as usize;
+        let users: Vec<String> = {
+            let all: Vec<String> = USERS.iter().map(|u| s(u)).collect();
+            self.distinct_users(&all, n_users)
+        };
+        self.cnt(&format!("state:users:{}", n_users));
+        for u in users.clone() {
+            if self.r.pct(85) {
+                let amt = self.log_uniform(1_000, m.max(1_000));
+                self.emit(Op::Gift { addr: u, denom: s("usei"), amt });
+            }
+        }
+
+        // ---- parameters and the wired prelude ----------------------------------------------
+        let epoch: u64 = match self.r.below(100) {
+            0..=49 => 30,
+            50..=66 => 10,
+            67..=82 => 0,
+            _ => 100,
+        };
+        // {0, 0.1 %, 0.5 %, 5 %, 100 %}
+        let pegfee: u128 = match self.r.below(100) {
+            0..=14 => 0,
+            15..=34 => 1_000_000_000_000_000,
+            35..=64 => 5_000_000_000_000_000,
+            65..=84 => 50_000_000_000_000_000,
+            _ => E18,
+        };
+        // {1, 0.99, 0.5}
+        let threshold: u128 = match self.r.below(100) {
+            0..=59 => E18,
+            60..=79 => 990_000_000_000_000_000,
+            _ => 500_000_000_000_000_000,
+        };
+        self.cnt(&format!("state:pegfee:{}", pegfee));
+        self.cnt(&format!("state:threshold:{}", threshold));
+        self.emit(Op::InstHub {
+            sender: s("owner"),
+            epoch,
+            unbonding: ut,
+            pegfee,
+            threshold,
+            updater: s("updater"),
+            underlying: s("usei"),
+            reward_denom: s("uusd"),
+        });
+        self.emit(Op::InstReward {
+            sender: s("owner"),
+            hub: s("hub"),
+            reward_denom: s("uusd"),
+            swap: s("swap"),
+            denoms: vec![s("uatom"), s("usei")],
+        });
+        let keeper_rate = match self.r.below(100) {
+            0..=9 => 0u128,
+            10..=59 => 50_000_000_000_000_000,
+            60..=89 => 300_000_000_000_000_000,
+            _ => E18,
+        };
+        self.emit(Op::InstDisp {
+            sender: s("owner"),
+            hub: s("hub"),
+            reward: s("reward"),
+            stdenom: s("usei"),
+            bdenom: s("uusd"),
+            keeper: s("keeper"),
+            rate: keeper_rate,
+            swap: s("swap"),
+            oracle: s("oracle"),
+            denoms: vec![s("uatom"), s("usei"), s("uusd")],
+        });
+        let nvals = match self.r.below(100) {
+            0..=14 => 1,
+            15..=34 => 2,
+            35..=64 => 3,
+            65..=84 => 4,
+            _ => 5,
+        };
+        let reg: Vec<String> = self.val_subset(nvals);
+        self.emit(Op::InstReg { sender: s("owner"), hub: s("hub"), vals: reg.clone() });
+        self.emit(Op::InstBsei { sender: s("owner"), hub: s("hub"), balances: vec![] });
+        self.emit(Op::InstStsei { sender: s("owner"), hub: s("hub"), mk: 2, balances: vec![] });
+        let w = self.wiring_op();
+        self.emit(w);
+
+        // ---- token ledgers -----------------------------------------------------------------
+        let supply_b = if self.r.pct(12) { 0 } else { self.spiky((m / 4).max(1)) };
+        let supply_st = if self.r.pct(12) { 0 } else { self.spiky((m / 8).max(1)) };
+        let mut bsei_bal: Vec<(String, u128)> = vec![];
+        for (tok, supply) in [(Tok::Bsei, supply_b), (Tok::Stsei, supply_st)] {
+            if supply == 0 {
+                continue;
+            }
+            let k = self.r.range(1, users.len().min(5) as u64) as usize;
+            let mut hs = self.distinct_users(&users, k);
+            if self.r.pct(8) {
+                // a plain account outside the user list holds tokens as well
+                hs.push(s(self.r.pick(&["owner", "keeper", "nobody"])));
+            }
+            let parts = self.split(supply, hs.len());
+            for (a, x) in hs.into_iter().zip(parts) {
+                if x == 0 {
+                    continue;
+                }
+                self.emit(Op::PokeTokBal { tok, addr: a.clone(), amt: x });
+                if tok == Tok::Bsei {
+                    bsei_bal.push((a, x));
+                }
+            }
+        }
+        self.cnt(&format!("state:bsei_holders:{}", bsei_bal.len()));
+
+        // ---- reward contract: mirror of the bSei ledger, indexes, solvency -------------------
+        let gi_max = (E18 * E18 / supply_b.max(1)).min(1_000_000 * E18);
+        let gi = if self.r.pct(10) { 0 } else { self.log_uniform(1, gi_max.max(1)) };
+        let mut accrued: u128 = 0; // sum of (gi - idx) * bal + pending, 18-decimal atomics
+        let mut holders_rows: Vec<(String, u128, u128, u128)> = vec![];
+        for (a, bal) in bsei_bal.iter() {
+            let idx = match self.r.below(100) {
+                0..=39 => gi,
+                40..=54 => 0,
+                _ => self.uniform(0, gi),
+            };
+            let pend = match self.r.below(100) {
+                0..=49 => 0,
+                50..=64 => self.uniform(0, E18 - 1),
+                _ => self.log_uniform(1, 1_000_000 * E18),
+            };
+            accrued += (gi - idx) * bal + pend;
+            holders_rows.push((a.clone(), *bal, idx, pend));
+        }
+        // former holders: no balance, an old index, rewards still pending
+        let n_former = self.r.pick(&[0usize, 0, 1, 2]);
+        for _ in 0..n_former {
+            let a = s(USERS[self.r.below(8) as usize]);
+            if holders_rows.iter().any(|(x, _, _, _)| *x == a) {
+                continue;
+            }
+            let idx = self.uniform(0, gi);
+            let pend = if self.r.pct(30) { 0 } else { self.log_uniform(1, 1_000 * E18) };
+            accrued += pend;
+            holders_rows.push((a, 0, idx, pend));
+        }
+        for (a, bal, idx, pend) in holders_rows {
+            self.emit(Op::PokeHolder { addr: a, bal, index: idx, pending: pend });
+        }
+        let owed = accrued / E18 + if accrued % E18 == 0 { 0 } else { 1 };
+        let prev_reward = owed + if self.r.pct(50) { 0 } else { self.spiky(1_000_000) };
+        self.emit(Op::PokeRwState { gi, total: supply_b, prev: prev_reward });
+        let fresh = if self.r.pct(60) { 0 } else { self.spiky(1_000_000_000) };
+        if prev_reward + fresh > 0 {
+            self.emit(Op::Gift { addr: s("reward"), denom: s("uusd"), amt: prev_reward + fresh });
+        }
+
+        // ---- batches: times -------------------------------------------------------------------
+        // current batch id c; history entries 1..c-1, strictly increasing times spaced by more
+        // than the epoch period, generated backwards from `now`
+        let c: u64 = match self.r.below(100) {
+            0..=7 => 1,
+            8..=29 => self.r.range(2, 4),
+            30..=64 => self.r.range(5, 12),
+            65..=89 => self.r.range(13, 25),
+            _ => self.r.range(26, 40),
+        };
+        let nh = (c - 1) as usize;
+        let mut times: Vec<u64> = vec![0; nh + 1]; // index = batch id
+        if nh > 0 {
+            // distance of the last closed batch from now
+            let d0 = match self.r.below(100) {
+                0..=24 => 0,
+                25..=44 => self.r.range(0, epoch),
+                45..=59 => epoch + 1,
+                60..=79 => self.r.range(epoch + 1, epoch + ut + 2),
+                _ => self.r.range(0, 3 * (epoch + ut) + 3),
+            };
+            times[nh] = now - d0;
+            for i in (1..nh).rev() {
+                let extra = match self.r.below(100) {
+                    0..=34 => 0,
+                    35..=59 => self.r.range(0, 5),
+                    60..=89 => self.r.range(0, epoch + ut / 2 + 1),
+                    _ => self.r.range(0, 3 * ut + 10),
+                };
+                times[i] = times[i + 1] - (epoch + 1 + extra);
+            }
+            if self.r.pct(40) {
+                // put one batch exactly on / next to the maturity boundary (time + UT = now -1|0|+1),
+                // moving everything while the last entry stays in the past
+                let k = self.r.range(1, nh as u64) as usize;
+                let target = (now as i128) - (ut as i128) + self.r.pick(&[-1i128, 0, 0, 1]);
+                let shift = target - times[k] as i128;
+                if (times[nh] as i128) + shift <= now as i128 && (times[1] as i128) + shift > 0 {
+                    for t in times.iter_mut().skip(1) {
+                        *t = ((*t as i128) + shift) as u64;
+                    }
+                }
+            }
+        }
+        // matured batches (time + UT <= now) form a prefix 1..mat; released ones a prefix 1..lpb of it
+        let mat = (1..=nh).filter(|i| times[*i] as u128 + ut as u128 <= now as u128).count();
+        let lpb = if mat == 0 {
+            0
+        } else {
+            match self.r.below(100) {
+                0..=39 => mat,
+                40..=54 => 0,
+                55..=74 => mat.saturating_sub(self.r.range(1, 3) as usize),
+                _ => self.r.range(0, mat as u64) as usize,
+            }
+        };
+        let info = SynthInfo {
+            magnitude: m,
+            batches: c,
+            released: lpb as u64,
+            matured: (mat - lpb) as u64,
+            immature: (nh - mat) as u64,
+        };
+
+        // ---- batches: amounts and rates ---------------------------------------------------------
+        let per_batch = (m / (4 * (nh.max(1) as u128))).max(1);
+        struct Entry {
+            bamt: u128,
+            bapp: u128,
+            bwd: u128,
+            samt: u128,
+            sapp: u128,
+            swd: u128,
+        }
+        let mut entries: Vec<Entry> = vec![];
+        for i in 1..=nh {
+            let (mut bamt, mut samt) = (self.spiky(per_batch), self.spiky(per_batch));
+            match self.r.below(100) {
+                0..=19 => bamt = 0,
+                20..=39 => samt = 0,
+                _ => {}
+            }
+            let bapp = if self.r.pct(45) { E18 } else { self.uniform(E18 / 2, E18) };
+            let sapp = if self.r.pct(25) { E18 } else { self.uniform(E18 / 5 * 4, 3 * E18) };
+            let (mut bwd, mut swd) = (bapp, sapp);
+            if i <= lpb && self.r.pct(30) {
+                // released after a slashing of the unbonding stake: both rates lower
+                let (num, den) = self.r.pick(&[(9u128, 10u128), (99, 100), (1, 2), (999_999, 1_000_000), (4, 7)]);
+                bwd = mul_ratio(bapp, num, den);
+                swd = mul_ratio(sapp, num, den);
+                if self.r.pct(30) {
+                    bwd = bwd.saturating_sub(self.r.range(0, 3) as u128);
+                    swd = swd.saturating_sub(self.r.range(0, 3) as u128);
+                }
+            } else if i <= lpb && self.r.pct(30) {
+                // the usual release dust: the recorded rate is a floor of (amount*rate - 1)/amount
+                if bamt > 0 {
+                    bwd = mul_ratio(mul_rate(bamt, bapp).saturating_sub(1), E18, bamt).min(bapp);
+                }
+                if samt > 0 {
+                    swd = mul_ratio(mul_rate(samt, sapp).saturating_sub(1), E18, samt).min(sapp);
+                }
+            }
+            entries.push(Entry { bamt, bapp, bwd, samt, sapp, swd });
+        }
+        for (k, e) in entries.iter().enumerate() {
+            let id = (k + 1) as u64;
+            self.emit(Op::PokeHist {
+                id,
+                time: times[k + 1],
+                bamt: e.bamt,
+                bapplied: e.bapp,
+                bwithdraw: e.bwd,
+                samt: e.samt,
+                sapplied: e.sapp,
+                swithdraw: e.swd,
+                released: k < lpb,
+            });
+        }
+
+        // ---- open batch --------------------------------------------------------------------------
+        let (reqb, reqst) = match self.r.below(100) {
+            0..=39 => (0, 0),
+            40..=54 => (self.spiky((m / 16).max(1)), 0),
+            55..=69 => (0, self.spiky((m / 16).max(1))),
+            _ => (self.spiky((m / 16).max(1)), self.spiky((m / 16).max(1))),
+        };
+        self.emit(Op::PokeBatch { id: c, reqb, reqst });
+
+        // ---- wait list ----------------------------------------------------------------------------
+        // per user a cut-off: a withdrawal removes every released entry of the user, so a user's
+        // remaining entries in released batches are those of the batches after his last withdrawal
+        let cutoff: Vec<usize> = users
+            .iter()
+            .map(|_| match self.r.below(100) {
+                0..=39 => 0,
+                40..=64 => lpb,
+                _ => self.r.range(0, lpb as u64) as usize,
+            })
+            .collect();
+        let mut released_due: u128 = 0; // payouts still owed for released batches
+        let mut wait_rows: Vec<(String, u64, u128, u128)> = vec![];
+        for (k, e) in entries.iter().enumerate() {
+            let id = k + 1;
+            let n = self.r.range(1, users.len().min(3) as u64) as usize;
+            let who = self.distinct_users(&users, n);
+            let bs = self.split(e.bamt, who.len());
+            let ss = self.split(e.samt, who.len());
+            for (j, u) in who.iter().enumerate() {
+                if bs[j] == 0 && ss[j] == 0 {
+                    continue;
+                }
+                let ui = users.iter().position(|x| x == u).unwrap();
+                if id <= lpb {
+                    if cutoff[ui] >= id {
+                        continue; // already paid
+                    }
+                    released_due += mul_rate(ss[j], e.swd) + mul_rate(bs[j], e.bwd);
+                }
+                wait_rows.push((u.clone(), id as u64, bs[j], ss[j]));
+            }
+        }
+        if reqb > 0 || reqst > 0 {
+            let n = self.r.range(1, users.len().min(3) as u64) as usize;
+            let who = self.distinct_users(&users, n);
+            let bs = self.split(reqb, who.len());
+            let ss = self.split(reqst, who.len());
+            for (j, u) in who.iter().enumerate() {
+                if bs[j] > 0 || ss[j] > 0 {
+                    wait_rows.push((u.clone(), c, bs[j], ss[j]));
+                }
+            }
+        }
+        let mut claimants: Vec<&String> = wait_rows.iter().map(|r| &r.0).collect();
+        claimants.sort();
+        claimants.dedup();
+        self.cnt(&format!("state:claimants:{}", claimants.len()));
+        for (u, id, b, st) in wait_rows {
+            self.emit(Op::PokeWait { addr: u, batch: id, b, st });
+        }
+
+        // ---- pools, rates ---------------------------------------------------------------------------
+        let claims_b = supply_b + reqb;
+        let claims_st = supply_st + reqst;
+        let bb = if claims_b == 0 {
+            self.r.pick(&[0u128, 0, 0, 1, 3])
+        } else if self.r.pct(45) {
+            claims_b
+        } else {
+            let r = self.uniform(E18 / 2, E18);
+            mul_rate(claims_b, r).max((claims_b + 1) / 2).max(1)
+        };
+        let bst = if claims_st == 0 {
+            self.r.pick(&[0u128, 0, 0, 1, 3])
+        } else if self.r.pct(25) {
+            claims_st
+        } else {
+            let r = self.uniform(E18 / 5 * 4, 3 * E18);
+            mul_rate(claims_st, r).max(1)
+        };
+        let (mut ber, mut ser) = (rate_of(bb, claims_b), rate_of(bst, claims_st));
+        if self.r.pct(25) {
+            // stale by a little (the stored rates are refreshed only by some handlers)
+            let d = self.r.pick(&[1u128, 2, 1_000, 1_000_000_000_000]);
+            ber = if self.r.pct(50) { ber.saturating_sub(d).max(E18 / 2) } else { (ber + d).min(E18) };
+            let d = self.r.pick(&[1u128, 2, 1_000, 1_000_000_000_000]);
+            ser = if self.r.pct(50) { ser.saturating_sub(d).max(E18 / 5 * 4) } else { (ser + d).min(3 * E18) };
+            self.cnt("state:stored_rates:stale");
+        } else {
+            self.cnt("state:stored_rates:exact");
+        }
+        self.cnt(if ber == E18 { "state:bsei_rate:1" } else { "state:bsei_rate:<1" });
+        self.cnt(if ser == E18 {
+            "state:stsei_rate:1"
+        } else if ser < E18 {
+            "state:stsei_rate:<1"
+        } else {
+            "state:stsei_rate:>1"
+        });
+
+        // ---- delegations ------------------------------------------------------------------------------
+        let books = bb + bst;
+        let loss = if books >= 2 && self.r.pct(20) { self.spiky((books / 8).max(1)) } else { 0 };
+        self.cnt(if loss > 0 { "state:unrecognised_slash:yes" } else { "state:unrecognised_slash:no" });
+        let delegated = books - loss;
+        let mut dvals: Vec<String> = reg.clone();
+        let extra_val = self.r.pct(10);
+        if extra_val {
+            let others: Vec<String> =
+                VALS.iter().map(|v| s(v)).filter(|v| !reg.contains(v)).collect();
+            if let Some(v) = self.pick_str(&others) {
+                dvals.push(v);
+            }
+        }
+        self.cnt(if dvals.len() > reg.len() { "state:unregistered_delegation:yes" } else { "state:unregistered_delegation:no" });
+        let parts = self.split(delegated, dvals.len());
+        let mut have_del: Vec<String> = vec![];
+        for (v, x) in dvals.iter().zip(parts) {
+            if x == 0 && (delegated > 0 || self.r.pct(50)) && self.r.pct(60) {
+                continue; // no entry at all
+            }
+            self.emit(Op::PokeDel { addr: s("hub"), val: v.clone(), amt: x });
+            have_del.push(v.clone());
+        }
+
+        // ---- funding of the closed batches ----------------------------------------------------------------
+        let phb = released_due + if self.r.pct(50) { 0 } else { self.spiky(1_000) };
+        let mut hub_bank = phb;
+        let all_vals: Vec<String> = VALS.iter().map(|v| s(v)).collect();
+        let mut queue_slashed = false;
+        for (k, e) in entries.iter().enumerate() {
+            let id = k + 1;
+            if id <= lpb {
+                continue;
+            }
+            let mut arrive = mul_rate(e.bamt, e.bapp) + mul_rate(e.samt, e.sapp);
+            if self.r.pct(15) {
+                let (num, den) = self.r.pick(&[(9u128, 10u128), (99, 100), (1, 2), (999_999, 1_000_000)]);
+                arrive = mul_ratio(arrive, num, den);
+                queue_slashed = true;
+            }
+            if id <= mat {
+                hub_bank += arrive; // delivered, not yet recognised by a withdrawal
+            } else if arrive > 0 {
+                let n = self.r.pick(&[1usize, 1, 1, 2, 3]);
+                let vs = self.distinct_users(&all_vals, n);
+                let parts = self.split(arrive, vs.len());
+                for (v, x) in vs.into_iter().zip(parts) {
+                    if x > 0 {
+                        self.emit(Op::PokeUnb {
+                            addr: s("hub"),
+                            val: v,
+                            amt: x,
+                            completion: times[id] + ut,
+                        });
+                    }
+                }
+            }
+        }
+        self.cnt(if queue_slashed { "state:unbonding_slashed:yes" } else { "state:unbonding_slashed:no" });
+        if self.r.pct(8) {
+            hub_bank += self.spiky(1_000_000); // unsolicited transfer to the hub
+            self.cnt("state:rogue_transfer:yes");
+        } else {
+            self.cnt("state:rogue_transfer:no");
+        }
+        if hub_bank > 0 {
+            self.emit(Op::Gift { addr: s("hub"), denom: s("usei"), amt: hub_bank });
+        }
+
+        // ---- stored hub state ---------------------------------------------------------------------------------
+        let lut = if nh > 0 { times[nh] } else { now };
+        let lim = now - self.r.pick(&[0u64, 0, 1, 30, 1000]);
+        self.emit(Op::PokeHubState { ber, ser, bb, bst, lim, phb, lut, lpb: lpb as u64 });
+
+        // ---- staking rewards waiting on the delegations ---------------------------------------------------
+        if !have_del.is_empty() {
+            let n = self.r.pick(&[0usize, 0, 1, 2]);
+            for _ in 0..n {
+                let v = self.pick_str(&have_del).unwrap();
+                let denom = s(self.r.pick(&["uusd", "usei", "uusd", "uatom"]));
+                let amt = self.spiky(1_000_000_000);
+                self.emit(Op::PokePend { addr: s("hub"), val: v, denom, amt });
+            }
+        }
+        info
+    }
+
+    /// Re-derive the invariants of DESIGN.md 11.6 from the synthesised world itself, through the
+    /// real queries / storage items (a synthesiser bug must not go unnoticed: panics on violation).
+    fn synth_selfcheck(&mut self) {
+        let w = self.w();
+        let q_hold = |a: &str| -> basset::reward::HolderResponse {
+            query_contract(w, REWARD, &basset::reward::QueryMsg::Holder { address: s(a) }).expect("holder query")
+        };
+        // token ledgers: sum of balances = total supply
+        let mut supply = [0u128; 2];
+        for (i, t) in [Tok::Bsei, Tok::Stsei].into_iter().enumerate() {
+            let sum: u128 = ADDRS.iter().map(|a| tok_bal(w, t, a)).sum();
+            let info: cw20::TokenInfoResponse =
+                query_contract(w, tok_idx(t), &cw20::Cw20QueryMsg::TokenInfo {}).expect("token info");
+            assert_eq!(sum, info.total_supply.u128(), "synth: {} ledger", t.name());
+            supply[i] = sum;
+        }
+        // reward mirror, indexes, solvency
+        let rs = basset_sei_reward::state::read_state(&StoreRef::new(w, REWARD)).expect("reward state");
+        assert_eq!(rs.total_balance.u128(), supply[0], "synth: reward total = bSei supply");
+        let mut accrued = cosmwasm_std::Uint256::zero();
+        for a in ADDRS.iter() {
+            let h = q_hold(a);
+            assert_eq!(h.balance.u128(), tok_bal(w, Tok::Bsei, a), "synth: mirror of {}", a);
+            assert!(h.index <= rs.global_index, "synth: holder index <= global index");
+            let d = rs.global_index.atomics().u128() - h.index.atomics().u128();
+            accrued += cosmwasm_std::Uint256::from(d) * cosmwasm_std::Uint256::from(h.balance.u128())
+                + cosmwasm_std::Uint256::from(h.pending_rewards.atomics().u128());
+        }
+        assert!(
+            accrued <= cosmwasm_std::Uint256::from(rs.prev_reward_balance.u128()) * cosmwasm_std::Uint256::from(E18),
+            "synth: accrued rewards <= prev_reward_balance"
+        );
+        assert!(rs.prev_reward_balance.u128() <= w.balance("reward", "uusd"), "synth: prev <= reward bank");
+        // books, pools, rates
+        let st = hub_state(w).expect("hub state");
+        let p = hub_params(w).expect("hub params");
+        let cb = basset_sei_hub::state::CURRENT_BATCH.load(&StoreRef::new(w, HUB)).expect("batch");
+        let (bb, bst) = (st.total_bond_bsei_amount.u128(), st.total_bond_stsei_amount.u128());
+        let delegated = self.hub_delegated();
+        assert!(delegated <= bb + bst && bb + bst - delegated <= (bb + bst) / 8 + 1, "synth: books vs delegations");
+        let regd = reg_vals(w);
+        let unregistered = hub_delegation_vals(w).into_iter().filter(|v| !regd.contains(v)).count();
+        assert!(unregistered <= 1, "synth: at most one unregistered validator");
+        let claims_b = supply[0] + cb.requested_bsei_with_fee.u128();
+        let claims_st = supply[1] + cb.requested_stsei.u128();
+        assert!(claims_b == 0 || bb > 0, "synth: bSei claims backed");
+        assert!(claims_st == 0 || bst > 0, "synth: stSei claims backed");
+        let (ber, ser) = (st.bsei_exchange_rate.atomics().u128(), st.stsei_exchange_rate.atomics().u128());
+        let near = |a: u128, b: u128| a.max(b) - a.min(b) <= 1_000_000_000_000;
+        assert!(near(ber, rate_of(bb, claims_b)) || ber == E18 / 2 || ber == E18, "synth: stored bSei rate");
+        assert!(near(ser, rate_of(bst, claims_st)) || ser == E18 / 5 * 4 || ser == 3 * E18, "synth: stored stSei rate");
+        assert!(bb + bst <= E18 && supply[0] <= E18 && supply[1] <= E18, "synth: magnitudes");
+        // batches
+        let hist = hub_history(w);
+        let c = cb.id;
+        assert!((1..=40).contains(&c) && hist.len() as u64 == c - 1, "synth: history ids 1..c-1");
+        let now = w.now;
+        let mut due = 0u128; // payouts still owed for released batches
+        let mut expect_queue: Vec<(u128, u128)> = vec![]; // (completion, amount) of immature batches
+        let mut delivered = 0u128;
+        for (k, h) in hist.iter().enumerate() {
+            assert_eq!(h.batch_id, k as u64 + 1);
+            if k > 0 {
+                assert!(h.time > hist[k - 1].time + p.epoch_period, "synth: entries spaced by more than the epoch");
+            }
+            assert_eq!(h.released, h.batch_id <= st.last_processed_batch, "synth: released = prefix 1..LPB");
+            let (mut sb, mut sst) = (0u128, 0u128);
+            for a in ADDRS.iter() {
+                if let Ok(e) = basset_sei_hub::state::read_unbond_wait_list(&StoreRef::new(w, HUB), h.batch_id, s(a)) {
+                    sb += e.bsei_amount.u128();
+                    sst += e.stsei_amount.u128();
+                    if h.released {
+                        due += mul_rate(e.stsei_amount.u128(), h.stsei_withdraw_rate.atomics().u128())
+                            + mul_rate(e.bsei_amount.u128(), h.bsei_withdraw_rate.atomics().u128());
+                    }
+                }
+            }
+            let expected = mul_rate(h.bsei_amount.u128(), h.bsei_applied_exchange_rate.atomics().u128())
+                + mul_rate(h.stsei_amount.u128(), h.stsei_applied_exchange_rate.atomics().u128());
+            if h.released {
+                assert!(sb <= h.bsei_amount.u128() && sst <= h.stsei_amount.u128(), "synth: released claims <= entry");
+                assert!(h.bsei_withdraw_rate <= h.bsei_applied_exchange_rate && h.stsei_withdraw_rate <= h.stsei_applied_exchange_rate);
+                assert!(h.time + p.unbonding_period <= now, "synth: released batches are matured");
+            } else {
+                assert!(sb == h.bsei_amount.u128() && sst == h.stsei_amount.u128(), "synth: unreleased claims = entry");
+                assert!(h.bsei_withdraw_rate == h.bsei_applied_exchange_rate && h.stsei_withdraw_rate == h.stsei_applied_exchange_rate);
+                if h.time + p.unbonding_period <= now {
+                    delivered += expected; // upper bound (may have been slashed)
+                } else {
+                    expect_queue.push(((h.time + p.unbonding_period) as u128, expected));
+                }
+            }
+        }
+        assert_eq!(st.last_unbonded_time, hist.last().map(|h| h.time).unwrap_or(START_TIME), "synth: last_unbonded_time");
+        // open batch
+        let (mut ob, mut ost) = (0u128, 0u128);
+        for a in ADDRS.iter() {
+            if let Ok(e) = basset_sei_hub::state::read_unbond_wait_list(&StoreRef::new(w, HUB), c, s(a)) {
+                ob += e.bsei_amount.u128();
+                ost += e.stsei_amount.u128();
+            }
+        }
+        assert!(ob == cb.requested_bsei_with_fee.u128() && ost == cb.requested_stsei.u128(), "synth: open batch sums");
+        // funding
+        let phb = st.prev_hub_balance.u128();
+        let bank = w.balance("hub", "usei");
+        assert!(bank >= phb && phb >= due, "synth: hub bank >= prev_hub_balance >= released claims");
+        assert!(bank - phb <= delivered + 1_000_000, "synth: undistributed arrivals bounded by the matured batches");
+        assert_eq!(w.ut, p.unbonding_period, "synth: chain unbonding time = hub unbonding period");
+        for (t, amt) in expect_queue {
+            let got: u128 = w.unbonding.iter().filter(|u| u.delegator == "hub" && u.completion == t).map(|u| u.amount).sum();
+            assert!(got <= amt && (amt == 0 || got >= amt / 2), "synth: unbonding queue funds batch maturing at {}", t);
+        }
+        assert!(w.unbonding.iter().all(|u| u.completion > now as u128), "synth: queue entries are immature");
+        self.cnt("state:selfcheck:ok");
+    }
+
+    /// 8-14 ordinary operations after the synthesised state, with outcome / event statistics
+    fn synth_run(&mut self, len: u64) {
+        let info = self.synth_setup();
+        self.synth_selfcheck();
+        let bucket = |x: u64| -> &'static str {
+            match x {
+                0 => "0",
+                1 => "1",
+                2..=4 => "2-4",
+                5..=12 => "5-12",
+                13..=25 => "13-25",
+                _ => "26-40",
+            }
+        };
+        self.cnt(&format!("state:current_batch:{}", bucket(info.batches)));
+        self.cnt(&format!("state:released_batches:{}", bucket(info.released)));
+        self.cnt(&format!("state:matured_unreleased:{}", bucket(info.matured)));
+        self.cnt(&format!("state:immature:{}", bucket(info.immature)));
+        let _ = info.magnitude;
+        let n = if len == 0 { 0 } else { self.r.range(8, 14).min(len.max(8)) };
+        for _ in 0..n {
+            let f = self.pick_family();
+            let mut op = self.sample(f);
+            // keep most follow-up operations meaningful: an operation that would fail (dry run on
+            // a clone of the world) is re-drawn, up to twice, with probability 60 %
+            for _ in 0..2 {
+                if !op.is_transaction() || !self.r.pct(60) {
+                    break;
+                }
+                let mut probe = self.w().clone();
+                if apply_op(&mut probe, &op).ok {
+                    break;
+                }
+                let f = self.pick_family();
+                op = self.sample(f);
+            }
+            // views before
+            let st0 = hub_state(self.w());
+            let cb0 = self.current_batch_id();
+            let dels0 = self.hub_delegated();
+            let fee_branch = match (&st0, hub_params(self.w())) {
+                (Some(_), Some(p)) => {
+                    let rep: Option<basset::hub::StateResponse> =
+                        query_contract(self.w(), HUB, &basset::hub::QueryMsg::State {}).ok();
+                    rep.map(|r| r.bsei_exchange_rate < p.er_threshold && !p.peg_recovery_fee.is_zero())
+                        .unwrap_or(false)
+                }
+                _ => false,
+            };
+            let kind = op_kind(&op);
+            let is_unbond = matches!(&op, Op::Cw { msg: CwMsg::Send { hook: Hook::Unbond, .. }, .. })
+                || matches!(&op, Op::Cw { msg: CwMsg::SendFrom { hook: Hook::Unbond, .. }, .. });
+            let is_convert = matches!(&op, Op::Cw { msg: CwMsg::Send { hook: Hook::Convert, .. }, .. })
+                || matches!(&op, Op::Cw { msg: CwMsg::SendFrom { hook: Hook::Convert, .. }, .. });
+            let is_withdraw = matches!(&op, Op::Hub { msg: HubMsg::Withdraw, .. });
+            let is_tx = op.is_transaction();
+            let ok = self.emit(op);
+            let label = if is_unbond {
+                s("unbond")
+            } else if is_convert {
+                s("convert")
+            } else {
+                kind
+            };
+            self.cnt(&format!("follow:{}:{}", label, if ok { "ok" } else { "err" }));
+            if is_tx {
+                self.cnt(if ok { "follow_tx:ok" } else { "follow_tx:err" });
+            }
+            if !ok {
+                continue;
+            }
+            let st1 = hub_state(self.w());
+            if let (Some(a), Some(b)) = (&st0, &st1) {
+                let rel = b.last_processed_batch.saturating_sub(a.last_processed_batch);
+                if is_withdraw {
+                    self.cnt("event:withdraw:ok");
+                    if rel == 1 {
+                        self.cnt("event:release_group_of_1:ok");
+                    } else if rel >= 2 {
+                        self.cnt("event:release_group_of_2+:ok");
+                    }
+                }
+                let books0 = a.total_bond_bsei_amount.u128() + a.total_bond_stsei_amount.u128();
+                let books1 = b.total_bond_bsei_amount.u128() + b.total_bond_stsei_amount.u128();
+                if is_tx && dels0 < books0 && books1 < books0 && !is_unbond {
+                    self.cnt("event:slash_recognised:ok");
+                }
+                if is_tx && dels0 < books0 && is_unbond {
+                    self.cnt("event:slash_recognised_in_unbond:ok");
+                }
+            }
+            if is_unbond {
+                if self.current_batch_id() > cb0 {
+                    self.cnt("event:batch_closing_unbond:ok");
+                } else {
+                    self.cnt("event:unbond_into_open_batch:ok");
+                }
+            }
+            if is_convert {
+                self.cnt(if fee_branch { "event:convert_with_fee:ok" } else { "event:convert_no_fee:ok" });
+            }
+        }
+    }
+
+    fn current_batch_id(&self) -> u64 {
+        if !self.w().inst[HUB] {
+            return 0;
+        }
+        basset_sei_hub::state::CURRENT_BATCH.load(&StoreRef::new(self.w(), HUB)).map(|b| b.id).unwrap_or(0)
+    }
+
+    fn hub_delegated(&self) -> u128 {
+        self.w().delegations.iter().filter(|((d, _), _)| d == "hub").map(|(_, a)| *a).sum()
+    }
+}
+
 /// Generate `nhist` histories; returns the statistics (also left in `em.stats`).
 pub fn generate<A: Write, B: Write>(
     em: &mut Emitter<A, B>,
@@ -2005,7 +2861,11 @@ pub fn generate<A: Write, B: Write>(
             advanced: 0,
             former: Default::default(),
         };
-        g.run(len);
+        if profile == "synth" {
+            g.synth_run(len);
+        } else {
+            g.run(len);
+        }
     }
     em.finish();
     Ok(())
